@@ -139,6 +139,19 @@ class Acc:
         self.outcomes[outcome] = self.outcomes.get(outcome, 0) + n
         self.nstates_by_construction += n
 
+    def subcases(self, prefix, n, nontrivial=True, outcome="sub-case"):
+        """n distinct sub-cases of one case (e.g. the new frames tried for one formula), each really executed."""
+        if n <= 0:
+            return
+        self.evaluations += n
+        self.outcomes[outcome] = self.outcomes.get(outcome, 0) + n
+        hp = hash(prefix if isinstance(prefix, (str, int, tuple)) else json.dumps(prefix, sort_keys=True, default=str))
+        for i in range(n):
+            h = hash((hp, i))
+            self.states.add(h)
+            if nontrivial:
+                self.nontrivial.add(h)
+
     def violation(self, clause, sig, case, detail=""):
         self.nviol += 1
         if len(self.viol) < self.MAX_VIOL:
